@@ -259,6 +259,9 @@ func Main(engines map[string]Engine) {
 			log, rv.ShrinkExec = shrink(e, o, log, cls)
 		}
 		final, _ := replayLog(e, log, Opt{Property: o.Property, Tier: o.Tier, Mode: o.Mode, Trace: true})
+		for i := 0; i < 5 && strings.HasPrefix(cls, "race:") && hasClass(final.Viols, *prop, cls) == nil; i++ {
+			final, _ = replayLog(e, log, Opt{Property: o.Property, Tier: o.Tier, Mode: o.Mode, Trace: true})
+		}
 		if fv := hasClass(final.Viols, *prop, cls); fv != nil {
 			rv.Choices = choice.TrimZeros(log)
 			rv.Detail = fv.Detail
@@ -318,12 +321,24 @@ func replayLog(e Engine, log []choice.Entry, o Opt) (Out, *choice.Src) {
 
 func shrink(e Engine, o Opt, log []choice.Entry, cls string) ([]choice.Entry, int) {
 	deadline := time.Now().Add(45 * time.Second)
+	// whether the race detector SEES a race of a fixed schedule also depends on runtime-internal
+	// state (DESIGN 11.3): a candidate gets three executions, one report is enough (a report is
+	// always a true positive), no report means the candidate is rejected
+	tries := 1
+	if strings.HasPrefix(cls, "race:") {
+		tries = 3
+	}
 	return choice.Shrink(log, 400, func(cand []choice.Entry) (bool, []choice.Entry) {
-		if time.Now().After(deadline) {
-			return false, nil
+		for i := 0; i < tries; i++ {
+			if time.Now().After(deadline) {
+				return false, nil
+			}
+			out, c := replayLog(e, cand, o)
+			if hasClass(out.Viols, o.Property, cls) != nil {
+				return true, c.Log
+			}
 		}
-		out, c := replayLog(e, cand, o)
-		return hasClass(out.Viols, o.Property, cls) != nil, c.Log
+		return false, nil
 	})
 }
 
@@ -342,6 +357,10 @@ func doReplay(e Engine, path string) int {
 	}
 	o := Opt{Property: rv.Property, Tier: rv.Tier, Mode: rv.Mode, Trace: true}
 	out, c := replayLog(e, rv.Choices, o)
+	for i := 0; i < 9 && strings.HasPrefix(rv.Class, "race:") && hasClass(out.Viols, rv.Property, rv.Class) == nil; i++ {
+		// race DETECTION for a fixed schedule is probabilistic: re-execute the same schedule
+		out, c = replayLog(e, rv.Choices, o)
+	}
 	for _, l := range out.Trace {
 		fmt.Println("  " + l)
 	}
